@@ -30,7 +30,7 @@ NoOrc == [gv |-> <<>>, cfail |-> 0, mfail |-> 0]
 NoA == [exc |-> "", eobj |-> 0, eidx |-> 0, steps |-> <<>>, log |-> <<>>]
 
 Obs(op, i, ev, par, dl, orc, clk0, s0, s1, A, deliv, binds) ==
-  [op |-> op, who |-> i, ev |-> ev, par |-> par, dl |-> dl, ign |-> FALSE, hasl2 |-> TRUE, stale |-> 0, opq |-> FALSE,
+  [op |-> op, who |-> i, ev |-> ev, par |-> par, dl |-> dl, ign |-> FALSE, hasl2 |-> TRUE, stale |-> 0, opq |-> FALSE, tp |-> TpOf(IF A.exc = "" THEN A.steps ELSE <<>>),
    l2 |-> MetasL(A.log), mt |-> <<>>, ref |-> NoRef,
    gv |-> orc.gv, cfail |-> 0, mfail |-> 0, clk |-> clk0,
    pre |-> St(s0), post |-> St(s1),
